@@ -43,18 +43,6 @@ theorem cmdIdxs_cmdChunk {c arg : Nat} {r : SRes Nat} {evs : List Event} (hc : c
   · left; simp [cmdIdxs_polls h1, cmdIdxs_polls h2, cmdIdx_frame c arg hc]
   · right; exact ⟨cmdIdxs_polls h1, he⟩
 
-/-- Two facts about the same run can be combined (the events added are determined by the run). -/
-theorem Tr.and {m : S σ α} {P Q : SRes α → List Event → Prop} (hp : Tr m P) (hq : Tr m Q) :
-    Tr m (fun r evs => P r evs ∧ Q r evs) := by
-  intro s
-  obtain ⟨e1, h1, h2, h3, h4⟩ := hp s
-  obtain ⟨e2, g1, _, _, g4⟩ := hq s
-  have : e1 = e2 := by
-    have := h1.symm.trans g1
-    exact List.reverse_inj.mp (List.append_cancel_right this)
-  subst this
-  exact ⟨e1, h1, h2, h3, h4, g4⟩
-
 /-- All command frames in the chunk have index `c`. -/
 def OnlyCmd (c : Nat) (evs : List Event) : Prop := ∀ f, Event.cmd f ∈ evs → cmdIdx f = c
 
